@@ -151,8 +151,8 @@ class _Tr:
             if node.id not in env:
                 raise Unsupported(f'unknown name {node.id}')
             return env[node.id]
-        if isinstance(node, ast.Attribute) and isinstance(node.value, ast.Name) and node.value.id == 'self':
-            key = f'self.{node.attr}'
+        if isinstance(node, ast.Attribute) and isinstance(node.value, ast.Name):
+            key = f'{node.value.id}.{node.attr}'        # self.prefix, handler.interval, ...: bound by the caller
             if key not in env:
                 raise Unsupported(f'unknown attribute {key}')
             return env[key]
@@ -184,6 +184,8 @@ class _Tr:
                 return s_concat(a, b) if _is_str(a) else a + b
             if isinstance(node.op, ast.Sub):
                 return a - b
+            if isinstance(node.op, ast.Mod) and not _is_str(a):
+                return a % b            # Python's % on integers with a positive divisor == SMT-LIB mod
             if isinstance(node.op, ast.Mult) and (z3.is_int_value(a) or z3.is_int_value(b) or z3.is_rational_value(a) or z3.is_rational_value(b)):
                 return a * b
             raise Unsupported(f'operator {type(node.op).__name__}')
@@ -353,6 +355,25 @@ def translate(fn, env, hooks=None):
             raise Unsupported('a path falls off the end without return')
         out.append((z3.And(*conds) if conds else z3.BoolVal(True), r))
     return out, tr.side
+
+
+def find_branch(fn, predicate):
+    """The body (list of statements) of the first `if/elif` inside `fn` whose test source satisfies `predicate`."""
+    src = textwrap.dedent(inspect.getsource(fn))
+    tree = ast.parse(src)
+    for node in ast.walk(tree):
+        if isinstance(node, ast.If) and predicate(ast.unparse(node.test)):
+            return node.body
+    raise Unsupported('branch not found')
+
+
+def translate_statements(stmts, env, hooks=None):
+    """Straight-line statements -> the environment after them (one path only, else Unsupported)."""
+    tr = _Tr(hooks or {})
+    states = tr.block(stmts, [], dict(env))
+    if len(states) != 1 or states[0][2] is not None:
+        raise Unsupported('not straight-line')
+    return states[0][1]
 
 
 def result_term(paths):
